@@ -19,6 +19,9 @@ import Tumfl.Props.C13
 #print axioms Tumfl.Props.C02_boundary
 #print axioms Tumfl.Props.C08_comment_wf
 #print axioms Tumfl.Props.C08_comment_text
+#print axioms Tumfl.Props.C01_format_parse
+#print axioms Tumfl.Props.C08_format_total
+#print axioms Tumfl.Props.C08_format_total_parsed
 #print axioms Tumfl.Props.C08_format_tree
 #print axioms Tumfl.Props.C01_default_style
 #print axioms Tumfl.Props.C02_minified_style
